@@ -19,7 +19,11 @@ if st:
     print("REFUSING: repo is not clean:\n" + st); sys.exit(2)
 r = sh("git -C %s apply --whitespace=nowarn %s" % (REPO, patch))
 if r.returncode != 0:
-    print("patch does not apply:", r.stdout); sys.exit(2)
+    # written against an earlier commit of the library: three-way apply (scratch worktrees only)
+    r = sh("git -C %s apply -3 --whitespace=nowarn %s" % (REPO, patch)) if REPO != "/repo" else r
+    if r.returncode != 0:
+        sh("git -C %s reset -q --hard" % REPO) if REPO != "/repo" else None
+        print("patch does not apply:", r.stdout); sys.exit(2)
 res = {}
 try:
     for p in props:
@@ -31,7 +35,10 @@ try:
         for d in res[p]["detail"]:
             print("     " + d.strip()[:200])
 finally:
-    sh("git -C %s checkout -- . && git -C %s clean -fdq" % (REPO, REPO))
+    if REPO != "/repo":
+        sh("git -C %s reset -q --hard && git -C %s clean -fdq" % (REPO, REPO))
+    else:
+        sh("git -C %s checkout -- . && git -C %s clean -fdq" % (REPO, REPO))
     st = sh("git -C %s status --porcelain" % REPO).stdout.strip()
     if st:
         print("WARNING: /repo not clean after undo:\n" + st)
